@@ -101,3 +101,24 @@ func VerifC05ErrBlock(cs *ChainService, id types.BlockID) *types.Block {
 	}
 	return nil
 }
+
+// VerifC05AddOwnBlock submits a block the way ChainManager.Receive does for a block the node's own block
+// factory produced (message.AddBlock with the block state the producer executed the transactions on).
+func VerifC05AddOwnBlock(cs *ChainService, blk *types.Block, bstate *state.BlockState) error {
+	return cs.addBlock(blk, bstate, "")
+}
+
+// VerifC05GetReceiptsByNo is the query "receipts of the block at this height".
+func VerifC05GetReceiptsByNo(cs *ChainService, no types.BlockNo) (*types.Receipts, error) {
+	return cs.getReceiptsByNo(no)
+}
+
+// VerifC05ListEvents is the query "events matching this filter".
+func VerifC05ListEvents(cs *ChainService, filter *types.FilterInfo) ([]*types.Event, error) {
+	return cs.listEvents(filter)
+}
+
+// VerifC05InternalOps is the query "internal operations of the block at this height".
+func VerifC05InternalOps(cs *ChainService, no types.BlockNo) (string, error) {
+	return cs.getInternalOperations(no)
+}
